@@ -10,6 +10,11 @@ What is modelled (Go, pinned tree + the `fix:` commit of this property):
 * `pkg/tarfs/fs.go` `memFS.WriteHeader` (regular files / symlinks need a per-file record)
   and `install.go` `lazilyInstallAPKFiles` (leading hidden entries are skipped) → `installFiles`
 * `CalculateWorld` (`apko lock`) and `InstallPackages` (`apko build`, index- or lock-driven)   → `runOp`
+* round 2: `(*APK).expandPackage` + `apkCache.get` (process-wide memo of expansions, keyed by the package URL,
+  consulted only when a cache directory is configured)                                   → `expandVia`, `State.memo`
+* round 2: `pkg/apk/internal/tarfs` `New` / `open` (index by name: the LAST entry of a name wins whatever its type;
+  link entries are followed inside the tar), `pkg/tarfs/fs.go` `memFS.writeHeader` / `link` / `openFile`
+  (a node reads its bytes BY NAME from the tar of its package)                           → `tarLookup`, `tarOpen`, `writeEntry`, `install`, `served`
 
 Library calls are parameters (`Lib`): SHA-1, SHA-256, gunzip+untar of a data section, gunzip+untar+lookup of
 `.PKGINFO` in a control section.  No injectivity (collision freedom) is assumed anywhere: all statements are
@@ -42,6 +47,11 @@ structure Entry where
   kind : Kind
   body : Bytes
   recorded : Recorded
+  /-- `Linkname` of a symlink / hard link entry -/
+  link : Text := []
+  /-- the name the lazy tar FS looks up when it is asked to open this (link) entry:
+  `Linkname` when absolute, else `path.Join(path.Dir(name), Linkname)` (computed by `path`, which is trusted) -/
+  tarTarget : Text := []
   deriving DecidableEq, Repr
 
 /-- the trusted library functions -/
@@ -246,6 +256,11 @@ namespace Impl
 /-- does today's `expandPackage` call `verifyExpanded` between `ExpandApk` and `cachePackage`?
 (tied to the regenerated fact `Generated.expandPackageVerifies`) -/
 def verifies : Bool := true
+/-- does today's `apkCache.get` compare the checksum string of the handle with the one its entry was made for?
+(tied to `Generated.stmts_apkCacheGet`) -/
+def memoChecks : Bool := true
+/-- does today's `lazilyInstallAPKFiles` refuse a repeated entry name? (tied to `Generated.stmts_lazyInstallLoop`) -/
+def rejectsDup : Bool := true
 /-- what the Go code does today -/
 def expandPackage := expandPackageWith verifies
 /-- the pinned algorithm before the repair (F05a/F05b) -/
@@ -275,13 +290,111 @@ def writable (e : Entry) : Bool :=
 
 def installFiles (es : List Entry) : Bool := (installable es).all writable
 
+/-! ### round 2: what the lazily installed files READ (tarfs index by name + memFS nodes of one package)
+
+`tarfs.New` indexes the data section by entry name, every entry (hidden leading ones, every type), the last
+entry of a name wins.  `open` follows symlink AND hard link entries inside the tar, at most 65 lookups
+(`hops > maxHops = 64` is an error); any other entry yields its body.  A memFS node created by
+`WriteHeader` keeps the header it was created from and reads `te.tfs.Open(te.header.Name)` — by NAME.
+Left out (cannot make more bytes unverified; the generator avoids them): a node whose own entry has size 0
+never defers to the tar; a served body whose length differs from the header size fails the layer writer;
+entry names are taken literally (no `./`, no trailing-slash clash between a directory and a file). -/
+
+def tarLookup (es : List Entry) (n : Text) : Option Entry := es.reverse.find? (fun e => e.name = n)
+
+def tarOpen (es : List Entry) : Nat → Text → Option Bytes
+  | 0, _ => none
+  | fuel + 1, n =>
+    match tarLookup es n with
+    | none => none
+    | some e =>
+      match e.kind with
+      | .symlink => tarOpen es fuel e.tarTarget
+      | .hardlink => tarOpen es fuel e.tarTarget
+      | _ => some e.body
+
+/-- `maxHops + 1` lookups -/
+def tarFuel : Nat := 65
+
+/-- a non-directory memFS node of the package being installed -/
+structure Node where
+  name : Text       -- path in the image
+  teName : Text     -- `te.header.Name`: the name the node reads its bytes by
+  sum : Digest      -- `te.checksum`: the per-file record of the entry it was created from
+  own : Bytes       -- the body of the entry it was created from (what the record was checked against)
+  isLink : Bool     -- created from a symlink entry
+  link : Text
+  alias : Bool := false   -- a second name (hard link) of another node: emitted as a link, not as a file
+  deriving DecidableEq, Repr
+
+def findNode (n : Text) : List Node → Option Node
+  | [] => none
+  | nd :: r => if nd.name = n then some nd else findNode n r
+
+/-- `memFS.writeHeader` inside ONE package (same origin): nothing there → create; same checksum → "that's fine",
+the existing node stays (whatever the two types are); otherwise the new entry replaces the node of that name -/
+def place (nodes : List Node) (nd : Node) : List Node :=
+  match findNode nd.name nodes with
+  | none => nd :: nodes
+  | some ex => if ex.sum = nd.sum then nodes else nd :: nodes.filter (fun x => x.name ≠ nd.name)
+
+/-- `memFS.WriteHeader` for one entry; `none` = error (the build aborts) -/
+def writeEntry (nodes : List Node) (e : Entry) : Option (List Node) :=
+  match e.kind, e.recorded with
+  | .dir, _ => some nodes
+  | .reg, .sum d =>
+    some (place nodes { name := e.name, teName := e.name, sum := d, own := e.body, isLink := false, link := [] })
+  | .symlink, .sum d =>
+    let nd : Node := { name := e.name, teName := e.name, sum := d, own := e.body, isLink := true, link := e.link }
+    match findNode e.name nodes with
+    | some ex => if ex.isLink && ex.link = e.link then some nodes else some (place nodes nd)
+    | none => some (place nodes nd)
+  | .hardlink, _ =>
+    match findNode e.link nodes, findNode e.name nodes with
+    | some t, none => if t.isLink then none else some ({ t with name := e.name, alias := true } :: nodes)
+    | _, _ => none
+  | _, _ => none
+
+def installNodes : List Node → List Entry → Option (List Node)
+  | ns, [] => some ns
+  | ns, e :: es =>
+    match writeEntry ns e with
+    | none => none
+    | some ns' => installNodes ns' es
+
+def namesNodup (es : List Entry) : Bool := decide (es.map (·.name)).Nodup
+
+/-- `lazilyInstallAPKFiles`.  `rejectDup = true` is the repaired installer (round 2: a data section in which a
+name occurs twice is refused before anything is written), `false` the pinned one (finding F05e). -/
+def install (rejectDup : Bool) (es : List Entry) : Option (List Node) :=
+  if rejectDup && !namesNodup es then none else installNodes [] (installable es)
+
+/-- what a file node serves when the layer is written -/
+def served (es : List Entry) (nd : Node) : Option Bytes := tarOpen es tarFuel nd.teName
+
+/-- the nodes that end up as regular files of the layer -/
+def fileNodes (ns : List Node) : List Node := ns.filter (fun nd => !nd.isLink && !nd.alias)
+
+/-- every node that holds file content can be read (else writing the layer fails) -/
+def readable (es : List Entry) (ns : List Node) : Bool :=
+  ns.all (fun nd => nd.isLink || (served es nd).isSome)
+
+/-- build of one expanded package: the nodes, or `none` when the build aborts -/
+def installPkg (rejectDup : Bool) (es : List Entry) : Option (List Node) :=
+  match install rejectDup es with
+  | none => none
+  | some ns => if readable es ns then some ns else none
+
 /-! ### whole operations: `apko lock` (expand only) and `apko build` (expand + install) over several packages,
 each with its own cache directory -/
 
 structure PkgReq where
-  key : Text                   -- cache directory of the package (derived from its URL)
+  key : Text                   -- the package URL (the memo key); the cache directory of the package is derived from it
   expected : Want              -- checksum recorded by the index / lock file
   fetched : Option Apk         -- what the repository serves under the package URL
+  /-- `ChecksumString()` of the handle, verbatim.  `expected` is what that string decodes to: the harness derives
+  both from the one string, so equal `raw` goes with equal `expected` -/
+  raw : Text := []
   deriving DecidableEq, Repr
 
 inductive OpKind where
@@ -292,6 +405,9 @@ structure Op where
   kind : OpKind
   useCache : Bool
   pkgs : List PkgReq
+  /-- the operation runs in a NEW process (the process-wide memo starts empty); `false`: same process as the
+  previous operation (a long-lived caller of the library: terraform provider, tests, `apko` as a service) -/
+  fresh : Bool := true
   deriving Repr
 
 abbrev Store := List (Text × Cache)
@@ -300,37 +416,113 @@ def Store.cacheOf (s : Store) (k : Text) : Cache := (lookup k s).getD {}
 
 def Store.put (s : Store) (k : Text) (c : Cache) : Store := (k, c) :: s.filter (fun p => p.1 ≠ k)
 
-/-- one package of an operation: verdict and new store (every package is expanded even when another one
-fails: the errgroup has no cancellation) -/
-def runPkg (verify : Bool) (L : Lib) (kind : OpKind) (useCache : Bool) (s : Store) (p : PkgReq) : Bool × Store :=
-  let cache := if useCache then some (s.cacheOf p.key) else none
+/-- one entry of `globalApkCache` (`apkResult`): the result of the ONE expansion that ran inside the
+`sync.Once` of that URL (errors are memoised too), and — since the repair — the checksum string of the handle
+it ran for -/
+structure MemoEntry where
+  raw : Text
+  want : Want
+  res : Except Err Expanded
+  deriving Repr
+
+abbrev Memo := List (Text × MemoEntry)
+
+/-- the cache root on disk and the memo of the running process -/
+structure State where
+  store : Store := []
+  memo : Memo := []
+  deriving Repr
+
+/-- the package-level `expandPackage(ctx, a, pkg)` against the store: result and new store -/
+def expandDirect (verify : Bool) (L : Lib) (useCache : Bool) (st : Store) (p : PkgReq) : Except Err Expanded × Store :=
+  let cache := if useCache then some (st.cacheOf p.key) else none
   match expandPackageWith verify L p.expected cache p.fetched with
-  | .error _ => (false, s)
+  | .error x => (.error x, st)
   | .ok (e, c') =>
-    let s' := match c' with
-      | some c => s.put p.key c
-      | none => s
-    (match kind with
-     | .lock => true
-     | .build => installFiles e.files, s')
+    (.ok e, match c' with
+            | some c => st.put p.key c
+            | none => st)
 
-def runPkgs (verify : Bool) (L : Lib) (kind : OpKind) (useCache : Bool) : Store → List PkgReq → Bool × Store
-  | s, [] => (true, s)
+/-- does a memo entry answer this handle?  `checkMemo = false` (pinned: finding F05d): any entry of the URL does.
+`checkMemo = true` (repaired): only the entry of a handle with the same checksum string. -/
+def memoAnswers (checkMemo : Bool) (m : MemoEntry) (p : PkgReq) : Bool :=
+  !checkMemo || (decide (m.raw = p.raw) && decide (m.want = p.expected))
+
+/-- `(*APK).expandPackage`: without a cache directory the memo is not used at all; with one, `apkCache.get`:
+first handle of a URL → expand inside the once and memoise (result or error); later handles → the memoised
+result, or (repaired) a direct, un-memoised `expandPackage` when the entry does not answer this handle -/
+def expandVia (verify checkMemo : Bool) (L : Lib) (useCache : Bool) (s : State) (p : PkgReq) :
+    Except Err Expanded × State :=
+  if !useCache then
+    ((expandDirect verify L false s.store p).1, s)
+  else
+    match lookup p.key s.memo with
+    | none =>
+      let d := expandDirect verify L true s.store p
+      (d.1, { store := d.2, memo := (p.key, { raw := p.raw, want := p.expected, res := d.1 }) :: s.memo })
+    | some m =>
+      if memoAnswers checkMemo m p then (m.res, s)
+      else
+        let d := expandDirect verify L true s.store p
+        (d.1, { s with store := d.2 })
+
+/-- the three switches between the pinned algorithms and the repaired ones -/
+structure Cfg where
+  verify : Bool       -- `verifyExpanded` between `ExpandApk` and `cachePackage` (round 1: F05a/F05b)
+  checkMemo : Bool    -- `apkCache.get` answers a handle only from an entry of the same checksum string (F05d)
+  rejectDup : Bool    -- `lazilyInstallAPKFiles` refuses a data section with a repeated entry name (F05e)
+  deriving DecidableEq, Repr
+
+/-- what one package of an operation came to -/
+structure PkgOut where
+  ok : Bool
+  exp : Option Expanded := none       -- what was expanded (and, for a build, installed)
+  nodes : List Node := []              -- build: the memFS nodes of the package
+  deriving Repr
+
+/-- one package of an operation (every package is expanded even when another one fails: the errgroup has no
+cancellation) -/
+def runPkg (cfg : Cfg) (L : Lib) (kind : OpKind) (useCache : Bool) (s : State) (p : PkgReq) : PkgOut × State :=
+  match expandVia cfg.verify cfg.checkMemo L useCache s p with
+  | (.error _, s') => ({ ok := false }, s')
+  | (.ok e, s') =>
+    match kind with
+    | .lock => ({ ok := true, exp := some e }, s')
+    | .build =>
+      match installPkg cfg.rejectDup e.files with
+      | none => ({ ok := false, exp := some e }, s')
+      | some ns => ({ ok := true, exp := some e, nodes := ns }, s')
+
+def runPkgs (cfg : Cfg) (L : Lib) (kind : OpKind) (useCache : Bool) : State → List PkgReq → List PkgOut × State
+  | s, [] => ([], s)
   | s, p :: ps =>
-    let (ok, s') := runPkg verify L kind useCache s p
-    let (oks, s'') := runPkgs verify L kind useCache s' ps
-    (ok && oks, s'')
+    let (o, s') := runPkg cfg L kind useCache s p
+    let (os, s'') := runPkgs cfg L kind useCache s' ps
+    (o :: os, s'')
 
-def runOp (verify : Bool) (L : Lib) (s : Store) (o : Op) : Bool × Store :=
-  runPkgs verify L o.kind o.useCache s o.pkgs
+/-- a new process starts with an empty memo -/
+def State.enter (s : State) (o : Op) : State := if o.fresh then { s with memo := [] } else s
 
-/-- verdicts of a sequence of operations sharing one cache root, starting from `s` -/
-def runOps (verify : Bool) (L : Lib) : Store → List Op → List Bool × Store
+def runOp (cfg : Cfg) (L : Lib) (s : State) (o : Op) : List PkgOut × State :=
+  runPkgs cfg L o.kind o.useCache (s.enter o) o.pkgs
+
+def opOk (outs : List PkgOut) : Bool := outs.all (·.ok)
+
+/-- outcomes of a sequence of operations sharing one cache root, starting from `s` -/
+def runOps (cfg : Cfg) (L : Lib) : State → List Op → List (List PkgOut) × State
   | s, [] => ([], s)
   | s, o :: os =>
-    let (ok, s') := runOp verify L s o
-    let (oks, s'') := runOps verify L s' os
-    (ok :: oks, s'')
+    let (r, s') := runOp cfg L s o
+    let (rs, s'') := runOps cfg L s' os
+    (r :: rs, s'')
+
+namespace Impl
+/-- the algorithm the Go code runs today -/
+def cfg : Cfg := { verify := verifies, checkMemo := memoChecks, rejectDup := rejectsDup }
+end Impl
+
+/-- all three repairs in place -/
+def Cfg.repaired : Cfg := { verify := true, checkMemo := true, rejectDup := true }
 
 /-! ### Spec: what the property demands of the bytes that get installed -/
 
@@ -406,6 +598,30 @@ def pkgVerdict (L : Lib) (kind : OpKind) (p : PkgReq) (cache : Option Cache) : S
     else if !filesOk L data (kind = .build) then "files"
     else if dataClass L control data = 1 then "emptyhash"
     else "ok"
+
+/-- the same three relations, evaluated on what an operation actually expanded (and, for a build, installed) for a
+handle — whichever way it got it: fetched, from the cache directory, or from the memo of the process -/
+def expVerdict (L : Lib) (kind : OpKind) (w : Want) (e : Expanded) : String :=
+  if !(controlOk L w.digest e.control && controlOk L w.digest e.controlFile) then "control"
+  else if dataClass L e.control e.data = 2 then "data"
+  else if !(filesOk L e.data (kind = .build) && decide (L.untarData e.data = some e.files)) then "files"
+  else if dataClass L e.control e.data = 1 then "emptyhash"
+  else "ok"
+
+/-- a regular file of the layer holds the bytes its per-file record was checked against: the body of the entry the
+node was created from -/
+def servedOk (es : List Entry) (ns : List Node) : Bool :=
+  (fileNodes ns).all (fun nd => served es nd = some nd.own)
+
+/-- the property does not say what happens to a data section that names an entry twice (an abort is fine, an
+install is fine provided `servedOk`): the verdict is not prescribed -/
+def dupNames (L : Lib) (p : PkgReq) (cache : Option Cache) : Bool :=
+  match candidate L p cache with
+  | none => false
+  | some (_, data) =>
+    match L.untarData data with
+    | none => false
+    | some es => !namesNodup es
 
 end Spec
 
